@@ -338,6 +338,9 @@ func Indent(dst *bytes.Buffer, src []byte, prefix, indent string) error {
 // escaping within <script> tags, so an alternative JSON encoding must
 // be used.
 func HTMLEscape(dst *bytes.Buffer, src []byte) {
+	if !Valid(src) {
+		return
+	}
 	var v interface{}
 	dec := NewDecoder(bytes.NewBuffer(src))
 	dec.UseNumber()
@@ -350,16 +353,10 @@ func HTMLEscape(dst *bytes.Buffer, src []byte) {
 
 // Valid reports whether data is a valid JSON encoding.
 func Valid(data []byte) bool {
+	// A Decoder skips one leading ',' or ':' (values between tokens),
+	// so it cannot be used to validate a whole text.
 	var v interface{}
-	decoder := NewDecoder(bytes.NewReader(data))
-	err := decoder.Decode(&v)
-	if err != nil {
-		return false
-	}
-	if !decoder.More() {
-		return true
-	}
-	return decoder.InputOffset() >= int64(len(data))
+	return Unmarshal(data, &v) == nil
 }
 
 func init() {
